@@ -118,7 +118,8 @@ rc::Gen<std::vector<uint8_t>> progGen(unsigned maxlen) {
     return rc::gen::withSize([=](int size) {
         int sz = std::max(1, (int)(maxlen * (unsigned)std::min(size + 5, 100) / 100));
         return rc::gen::mapcat(rc::gen::resize(100, rc::gen::inRange<int>(0, 3)), [=](int k) {
-            bool full = maxlen <= 32 ? k != 0 : k == 0;
+            // (small sizes stay small: the full 2-preemption sweep runs with a small maximum size on purpose)
+            bool full = size >= 30 && (maxlen <= 32 ? k != 0 : k == 0);
             if (full) return rc::gen::container<std::vector<uint8_t>>((std::size_t)maxlen, byteGen());
             return rc::gen::resize(sz, rc::gen::container<std::vector<uint8_t>>(byteGen()));
         });
@@ -178,6 +179,7 @@ void rc_case_body(bool uses_schedule, unsigned maxlen) {
     if (r.failed()) { note_fail(c, r); RC_FAIL(r.msg); }
 }
 
+unsigned long long g_sweep2_complete = 0, g_sweep2_truncated = 0;
 // systematic: every 1-preemption schedule of a generated program (+ sampled 2-preemption)
 void sweep_case_body(unsigned maxlen, int pairs) {
     if (stop_requested()) return;
@@ -197,10 +199,14 @@ void sweep_case_body(unsigned maxlen, int pairs) {
     }
     if (pairs < 0) {
         // FULL 2-preemption enumeration: for every first preemption (i,a) learn the decisions that follow it and
-        // enumerate every second preemption (j > i, b)
+        // enumerate every second preemption (j > i, b).  The cost is quadratic in the number of decisions: a program
+        // whose enumeration exceeds the per-program budget is abandoned and counted as truncated (it then contributed
+        // a prefix of its pairs, nothing is claimed for it).
+        const unsigned long long budget = 40000; unsigned long long spent = 0;
         for (uint32_t i = 0; i < lim; i++) {
             for (int a = 1; a < std::max<int>(alts[i], 2); a++) {
                 if (stop_requested()) return;
+                if (spent > budget) { g_sweep2_truncated++; return; }
                 Case c1; c1.prog = prog; c1.sched.assign(i + 1, 0); c1.sched[i] = (uint8_t)a;
                 Result r1 = run_checked(c1);
                 agg.add(c1, r1);
@@ -212,12 +218,13 @@ void sweep_case_body(unsigned maxlen, int pairs) {
                     for (int b = 1; b < std::max<int>(alts2[j], 2); b++) {
                         Case c; c.prog = prog; c.sched.assign(j + 1, 0); c.sched[i] = (uint8_t)a; c.sched[j] = (uint8_t)b;
                         Result r = run_checked(c);
-                        agg.add(c, r);
+                        agg.add(c, r); spent++;
                         if (r.failed()) { note_fail(c, r); RC_FAIL(r.msg); }
                     }
                 }
             }
         }
+        g_sweep2_complete++;
         return;
     }
     for (int k = 0; k < pairs && lim > 1; k++) {
@@ -310,6 +317,7 @@ void write_stats(const char *mode, double wall, long seed) {
     fprintf(f, " \"sum_decisions\": %llu, \"max_decisions\": %llu, \"sum_switches\": %llu, \"sum_points\": %llu, \"cases_with_in_library_preemption\": %llu, \"faults_injected\": %llu, \"multi_thread_cases\": %llu, \"virtual_time_jumps\": %llu,\n",
             (unsigned long long)agg.sum_dec, (unsigned long long)agg.max_dec, (unsigned long long)agg.sum_switch, (unsigned long long)agg.sum_points,
             (unsigned long long)agg.lib_preempt_cases, (unsigned long long)agg.faults_used, (unsigned long long)agg.multi_thread_cases, (unsigned long long)agg.time_jumps);
+    fprintf(f, " \"sweep2_complete\": %llu, \"sweep2_truncated\": %llu,\n", g_sweep2_complete, g_sweep2_truncated);
     fprintf(f, " \"classes\": {");
     bool first = true;
     for (auto &kv : agg.classes) {
